@@ -56,8 +56,8 @@ class XsdSimpleType(XsdType, ValidationMixin[str | bytes, DecodedValueType]):
     """
     _special_types = {nm.XSD_ANY_TYPE, nm.XSD_ANY_SIMPLE_TYPE}
     _ADMITTED_TAGS: tuple[str, ...] = nm.XSD_SIMPLE_TYPE,
-    _REGEX_SPACE = re.compile(r'\s')
-    _REGEX_SPACES = re.compile(r'\s+')
+    _REGEX_SPACE = re.compile(r'[\t\n\r ]')   # XML whitespace only, not Unicode spaces
+    _REGEX_SPACES = re.compile(r'[\t\n\r ]+')
     _facets: dict[str | None, FacetsValueType]
 
     abstract: bool = False
@@ -459,7 +459,7 @@ class XsdSimpleType(XsdType, ValidationMixin[str | bytes, DecodedValueType]):
             case 'replace':
                 return self._REGEX_SPACE.sub(' ', text)
             case 'collapse':
-                return self._REGEX_SPACES.sub(' ', text).strip()
+                return self._REGEX_SPACES.sub(' ', text).strip(' ')
             case _:
                 return text
 
@@ -721,6 +721,13 @@ class XsdAtomicBuiltin(XsdAtomic):
                 return self.to_python(obj)
             except (ValueError, TypeError, ArithmeticError):
                 return raw_encode_value(obj)
+
+        if isinstance(obj, str) and self.python_type is not str and obj != obj.strip():
+            # Only XML whitespace is removed by normalization: other Unicode
+            # spaces at the ends are not part of the lexical representation.
+            reason = _("invalid value {!r}").format(obj)
+            context.validation_error(validation, self, reason, obj)
+            return None
 
         if self.patterns is not None:
             try:
@@ -997,7 +1004,7 @@ class XsdList(XsdSimpleType):
     def raw_decode(self, obj: str | bytes, validation: str, context: ValidationContext) \
             -> list[AtomicValueType | None]:
         items = []
-        for chunk in self.normalize(obj).split():
+        for chunk in filter(None, self._REGEX_SPACES.split(self.normalize(obj))):
             result = self.item_type.raw_decode(chunk, validation, context)
 
             if isinstance(result, list):
